@@ -1,0 +1,30 @@
+"""Verification hooks (inactive unless the environment variable BCTPY_VERIF=1 is set).
+
+With the guard on, instrumented routines append snapshots of their internal state to LOG so
+that an external checker can compare every intermediate step, not only the final result.
+With the guard off every call site is a dead branch.
+"""
+import os
+
+ON = os.environ.get('BCTPY_VERIF') == '1'
+LOG = []
+
+
+def _snap(v):
+    try:
+        import numpy as np
+        if isinstance(v, np.ndarray):
+            return v.copy()
+    except Exception:
+        pass
+    if isinstance(v, (list, tuple)):
+        return type(v)(_snap(x) for x in v)
+    return v
+
+
+def emit(tag, **kw):
+    LOG.append((tag, dict((k, _snap(v)) for k, v in kw.items())))
+
+
+def reset():
+    del LOG[:]
